@@ -1,11 +1,20 @@
 PROP = dict(
-    modules=["Shangrla.Props.C14"],
+    modules=["Shangrla.Props.C14", "Shangrla.Props.RiskLimitIRVComparisonFull"],
     theorems=["Shangrla.C14.neb_agree", "Shangrla.C14.nen_agree", "Shangrla.C14.mean_gt_half_iff_tally",
               "Shangrla.C14.readers_agree", "Shangrla.C14.reapply_tallies",
               # beyond the inventory of DESIGN.md Appendix C
               "Shangrla.C14.mean_gt_half_iff_tally_nen", "Shangrla.C14.row_agree", "Shangrla.C14.nen_disagree_unlisted",
               "Shangrla.C14.file_readers", "Shangrla.C14.file_orders_agree",
-              "Shangrla.C14.file_mean_gt_half_iff_tally"],
+              "Shangrla.C14.file_mean_gt_half_iff_tally",
+              # C14's audit-side IRV assorters as the assorter parameter of the literal overstatement model (C04 o C14 o
+              # C03 o C06 o C09 o C01; also registered under C09): pools, phantom CVRs, unfindable cards, style filter
+              "Shangrla.RiskLimit.irvAssort_sum", "Shangrla.RiskLimit.irv_comparison_null_iff",
+              "Shangrla.RiskLimit.irv_comparison_null", "Shangrla.RiskLimit.irv_comparison_false_assertion",
+              "Shangrla.RiskLimit.irv_comparison_full_risk_limit",
+              "Shangrla.RiskLimit.irv_comparison_full_wrong_winner_risk_limit",
+              "Shangrla.RiskLimit.irv_comparison_full_wrong_winner_risk_limit_found",
+              "Shangrla.RiskLimit.raire_comparison_full_wrong_winner_risk_limit",
+              "Shangrla.RiskLimit.example_irv_comparison_full_exact"],
     groups={"irvballot": (12100, 73200)},
     boost=2.0,   # quick-tier budget factor when the anchored sources changed (default 5): keeps the boosted run near 2 min
     assumptions=[
@@ -17,6 +26,13 @@ PROP = dict(
         "`informal` / `order` tokens of a contest line are not modelled.",
         "Assorter.mean of an empty list is numpy's nan; the model returns none and the theorems state that the tally "
         "comparison then fails.",
+        "irv_comparison_full_* (RiskLimitIRVComparisonFull): the FOUND manual records of the cards under audit are aligned "
+        "(C14's hypothesis: a duplicate-free ranking of listed candidates read as {c: k+1} by the audit and {c: k} by the "
+        "generator side, or the contest absent on both); nothing is assumed of the records the overstatement scores 0 "
+        "(unfindable card; under style a record lacking the contest) nor of the cards whose CVR does not pass the style "
+        "filter (they are never used for the contest). The CVR side is arbitrary: any flags / pool labels, reported "
+        "assorter values in [0,1], an unpooled phantom CVR under audit has the value 1/2 (C03's hph; true of both IRV "
+        "assorters on a make_phantoms phantom, checked on the real library by tools/example_irv_comparison_full.py).",
     ],
     design_ref="DESIGN.md section 5, C14",
 )
